@@ -30,7 +30,8 @@ type runModel struct {
 	fout     ssa.Value
 	comments ssa.Value
 	matched  ssa.Value
-	errsPhi  *ssa.Phi // the `errors` accumulator at the loop header
+	errsPhi  *ssa.Phi // the `errors` accumulator at the loop header (nil when the accumulator is an object)
+	acc      *errAcc  // the per-file error accumulator, in either form
 	// optWritten: option fields assigned somewhere in the module (not constant)
 	optWritten map[string]bool
 }
@@ -202,14 +203,11 @@ func buildRunModel(r *an.Run) *runModel {
 	if m.matched == nil {
 		return bad("the matched flag returned by (*patchRunner).Apply")
 	}
-	for _, in := range m.loop.Loop.Header.Instrs {
-		if phi, ok := in.(*ssa.Phi); ok && an.ShortType(phi.Type()) == "[]error" {
-			m.errsPhi = phi
-		}
+	m.acc = findErrAcc(r, f, m.loop.Loop)
+	if m.acc == nil {
+		return bad("the per-file error accumulator (a []error carried around the loop, or a local object that collects errors through its methods)")
 	}
-	if m.errsPhi == nil {
-		return bad("the per-file error accumulator (a []error carried around the loop)")
-	}
+	m.errsPhi = m.acc.phi
 	m.optWritten = map[string]bool{}
 	for _, g := range r.P.ModuleFuncs() {
 		for _, b := range g.Blocks {
